@@ -891,6 +891,11 @@ int EGLPNUM_TYPENAME_ILLsimplex (
 	{
 		rval = EGLPNUM_TYPENAME_ILLbasis_load (lp, B);
 		CHECKRVALG (rval, CLEANUP);
+		/* a basis is being loaded, possibly for a problem whose dimensions have
+		 * changed since the last solve: the norm arrays, infeasibility arrays,
+		 * partial pricing buckets and the heap still held by pinf describe the
+		 * previous problem; only the norms handed over with B are kept. */
+		EGLPNUM_TYPENAME_ILLprice_free_pricing_info (pinf);
 		if (it.algorithm == DUAL_SIMPLEX)
 		{
 			if (B->rownorms)
